@@ -162,7 +162,7 @@ def spec_forward(q):
 def closed_form(ctx, fwd, qa):
     """R03.5"""
     ring = TrigRing(unit_square=sign_atom)
-    rt = strip(fwd.return_term())
+    rt = strip(inline(ctx.prog, fwd.return_term()))      # helper methods / closures computing the joint convention are written out
     if not ctx.check(isinstance(rt, tuple) and rt[0] == 'call' and cname(rt[1]).endswith('::from_parts'), 'R03.5', 'shape', fwd.where(0), fwd.path, 'forward must return from_parts(translation, rotation)'):
         return
     tr, rot = strip(rt[2]), strip(rt[3])
